@@ -156,6 +156,12 @@ func c20Run(c *fw.Ctx) {
 		{Name: "auth/sign-out-page/redirect-uri-raw", Side: "auth", Build: func(w *c20World, v, accept string) *http.Request {
 			return harness.NewRequest("GET", signed("sign_out", "https://app.sso.test/"+v, nil), harness.AuthHost, hdrAccept(authCookie("bob@corp.test"), accept), nil)
 		}},
+		{Name: "auth/sign-out-page/redirect-uri-with-script-scheme", Side: "auth", Build: func(w *c20World, v, accept string) *http.Request {
+			return harness.NewRequest("GET", signed("sign_out", "javascript://app.sso.test/%0A"+url.PathEscape(v), nil), harness.AuthHost, hdrAccept(authCookie("bob@corp.test"), accept), nil)
+		}},
+		{Name: "auth/sign-in-page/redirect-uri-with-script-scheme", Side: "auth", Build: func(w *c20World, v, accept string) *http.Request {
+			return harness.NewRequest("GET", signed("sign_in", "javascript://app.sso.test/%0A"+url.PathEscape(v), url.Values{"state": {"s"}}), harness.AuthHost, hdrAccept(nil, accept), nil)
+		}},
 		{Name: "auth/sign-out-page/session-email", Side: "auth", Build: func(w *c20World, v, accept string) *http.Request {
 			return harness.NewRequest("GET", signed("sign_out", "https://app.sso.test/", nil), harness.AuthHost, hdrAccept(authCookie(v), accept), nil)
 		}},
@@ -271,8 +277,8 @@ func init() {
 	fw.Register(&fw.Check{
 		ID:    "C20",
 		Level: "exploration",
-		Rule: "full product of 12 payloads (script element, attribute break-out with double and single quotes, </title> break-out, javascript: URL, entity-encoded markup, UTF-7, overlong UTF-8, NUL, template actions, comment break-out, CR/LF/TAB) x 12 request-controlled positions on the real services " +
-			"(proxy callback `error`; authenticator callback `error`, sign-in page redirect_uri query / raw path / host label / state and parameter names, sign-out page redirect_uri and session email, sign_in / start / client_id / redeem error responses) x {HTML, Accept: application/json (or XHR) where the position has a JSON rendering}; " +
+		Rule: "full product of 12 payloads (script element, attribute break-out with double and single quotes, </title> break-out, javascript: URL, entity-encoded markup, UTF-7, overlong UTF-8, NUL, template actions, comment break-out, CR/LF/TAB) x 14 request-controlled positions on the real services " +
+			"(proxy callback `error`; authenticator callback `error`, sign-in page redirect_uri query / raw path / host label / state and parameter names, sign-out page redirect_uri and session email, sign-in / sign-out page with a javascript:-scheme redirect_uri whose host is in domain, sign_in / start / client_id / redeem error responses) x {HTML, Accept: application/json (or XHR) where the position has a JSON rendering}; " +
 			"oracle: the HTML token structure (element names and attribute names, via golang.org/x/net/html's tokenizer) equals that of the same page rendered with a benign value, no URL attribute carries a script URL, and JSON bodies parse; " +
 			"distinct_nontrivial = distinct (position, payload, json, status, reflected?)",
 		Assumptions:    []string{"a payload that makes the request unparseable for net/http or is refused with another status than the benign value is not compared", "browser parsing is approximated by the x/net/html tokenizer"},
